@@ -3,6 +3,7 @@ package main
 import (
 	"fmt"
 	"go/token"
+	"go/types"
 	"strings"
 
 	"golang.org/x/tools/go/ssa"
@@ -405,4 +406,157 @@ func returnsBypassingExcept(fn *ssa.Function, loop map[*ssa.BasicBlock]bool, ski
 		}
 	}
 	return out
+}
+
+// checkOwnResources (C06/N11, C20/H8): what a discipline keeps in its fields - channels, maps,
+// slices, tickers, breakers, wait groups - is created for it by its constructor or comes from its
+// own options. A field bound to a package-level object is shared by every instance in the process:
+// one instance stopping its ticker (closing its channel, ...) takes it away from all the others.
+func checkOwnResources(c *Ctx, p *Prog, rule string, only func(d *Disc, field string) bool) {
+	ai := p.alias()
+	n := 0
+	for _, d := range p.Discs() {
+		for _, ctor := range d.Ctors {
+			for _, b := range ctor.Blocks {
+				for _, in := range b.Instrs {
+					st, ok := in.(*ssa.Store)
+					if !ok {
+						continue
+					}
+					fa, isFA := st.Addr.(*ssa.FieldAddr)
+					if !isFA || rootStructOf(fa) != d.Named {
+						continue
+					}
+					field := fieldName(fa.X.Type(), fa.Field)
+					if only != nil && !only(d, field) {
+						continue
+					}
+					switch st.Val.Type().Underlying().(type) {
+					case *types.Chan, *types.Map, *types.Slice, *types.Pointer:
+					default:
+						continue
+					}
+					n++
+					var shared []string
+					for _, root := range ai.Roots(st.Val) {
+						if root.Kind == "global" {
+							shared = append(shared, p.Sym(root.V).String())
+						}
+					}
+					c.R.Check(len(shared) == 0, rule, fmt.Sprintf("%s#own:%s", p.FnKey(ctor), field), p.InstrPos(in), "created by the constructor or taken from the options",
+						"field "+field+" of every instance is bound to the package-level "+strings.Join(dedup(shared), ", ")+": the instances share it, and what one of them does to it (stopping the ticker, closing the channel, writing the map) happens to all")
+				}
+			}
+		}
+	}
+	if n == 0 {
+		c.R.Fail(rule, p.Name+":own-resources", "-", "UNRESOLVED-ANCHOR: no resource field is initialised by a constructor")
+	}
+}
+
+// checkSchedulerWaits (C07/E13): outside selects, the scheduling goroutine waits only for things
+// that are bound to happen while items are in flight or soon: a release, a hand-over of an item,
+// a short constant pause (E10), a tick of a ticker that is alive for the whole run (stopped only
+// by the entry's deferred clean-up) or a short constant time.After. A plain wait for anything
+// else (or for a ticker the scheduler itself may have stopped) can keep the goroutine from ever
+// observing that the inputs are closed and empty: Output()/Err() are then not closed promptly.
+func checkSchedulerWaits(c *Ctx, sr *schedRoles, rule string) {
+	p := sr.p
+	n := 0
+	for _, fn := range sr.rt.Funcs {
+		for _, op := range p.BlockingOps(fn) {
+			if op.Kind != "recv" && op.Kind != "rangechan" {
+				continue
+			}
+			var ch ssa.Value
+			switch x := op.In.(type) {
+			case *ssa.UnOp:
+				ch = x.X
+			case *ssa.Next:
+				ch = x.Iter.(*ssa.Range).X
+			}
+			if _, inSel := ch.(*ssa.Extract); inSel {
+				continue
+			}
+			cs := p.upChan(p.Sym(ch), 0)
+			role := symChanRole(cs)
+			n++
+			key := fmt.Sprintf("%s#wait.%d", p.FnKey(fn), n)
+			switch {
+			case role == "field:feedback" || role == "field:err" || strings.HasPrefix(role, "call:") && isProductCall(p, cs.V):
+				// releases (N2/E4 decide when), the inner discipline's channels (E12 decides which)
+				c.R.Pass(rule, key, p.InstrPos(op.In), "waits for "+role)
+				continue
+			}
+			// <-ticker.C
+			if _, path, ok := cs.FieldPath(); ok && len(path) >= 2 && path[len(path)-1] == "C" {
+				tick := path[len(path)-2]
+				bad := tickerInterference(p, sr.rt, tick)
+				c.R.Check(len(bad) == 0, rule, key, p.InstrPos(op.In), "waits for a tick of "+tick+", which is stopped only by the entry's deferred clean-up",
+					"the scheduler waits (outside a select) for a tick of "+tick+", but that ticker is stopped or re-armed while the scheduler runs ("+strings.Join(bad, "; ")+"): once it is stopped the goroutine never looks at the inputs again and Output()/Err() are never closed")
+				continue
+			}
+			// <-time.After(small constant)
+			if call, ok := ch.(*ssa.Call); ok {
+				if cal := p.Callee(call); cal != nil && p.funcDisplay(cal) == "time.After" {
+					d, okd := constDuration(call.Call.Args[0])
+					c.R.Check(okd && d <= 1_000_000, rule, key, p.InstrPos(op.In), fmt.Sprintf("time.After(%dns): constant <= 1ms", d),
+						"the scheduler pauses for "+p.Sym(call.Call.Args[0]).String()+", not a small constant: Output()/Err() are closed that much later than the last release (not promptly)")
+					continue
+				}
+			}
+			c.R.Fail(rule, key, p.InstrPos(op.In), "the scheduler waits (outside a select) on "+cs.String()+" ["+role+"], which nothing guarantees to be signalled once the inputs are closed and empty: Output()/Err() may never be closed")
+		}
+	}
+	if n == 0 {
+		c.R.Pass(rule, p.Name+":priority#wait", "-", "the scheduler has no plain channel wait")
+	}
+}
+
+// tickerInterference lists the sites of the routine that stop or re-arm the ticker field other
+// than the entry's (deferred) clean-up.
+func tickerInterference(p *Prog, rt *Routine, field string) []string {
+	var bad []string
+	for _, fn := range rt.Funcs {
+		for _, b := range fn.Blocks {
+			for _, in := range b.Instrs {
+				call, ok := in.(ssa.CallInstruction)
+				if !ok {
+					continue
+				}
+				cal := p.Callee(call)
+				if cal == nil {
+					continue
+				}
+				name := p.funcDisplay(cal)
+				if name != "(*time.Ticker).Stop" && name != "(*time.Ticker).Reset" {
+					continue
+				}
+				if _, path, okp := p.Sym(call.Common().Args[0]).FieldPath(); !okp || path[len(path)-1] != field {
+					continue
+				}
+				_, isDefer := in.(*ssa.Defer)
+				if isDefer && fn == rt.E.Entry && name == "(*time.Ticker).Stop" {
+					continue
+				}
+				if !isDefer && fn != rt.E.Entry && b == straightLine(fn) && name == "(*time.Ticker).Stop" {
+					entries := map[*ssa.Function]*GoEntry{rt.E.Entry: rt.E}
+					if e := p.cleanupOnly(fn, entries, 0); e == rt.E {
+						continue
+					}
+				}
+				bad = append(bad, strings.TrimPrefix(name, "(*time.Ticker).")+" at "+p.InstrPos(in))
+			}
+		}
+	}
+	return bad
+}
+
+func isProductCall(p *Prog, v ssa.Value) bool {
+	call, ok := v.(*ssa.Call)
+	if !ok {
+		return false
+	}
+	cal := p.Callee(call)
+	return cal != nil && p.IsProduct(cal)
 }
